@@ -102,10 +102,20 @@ def main(run):
     if missing:
         run.violation({"broken": "predefined Sobolev spaces missing from the module", "missing": missing}, False)
         return run.finish("table incomplete")
+    # which variant of DirectionalSobolevSpace.__lt__ does /repo implement?  (behavioural probes; the
+    # exhaustive correspondence below validates the choice)
+    Dp = ss.DirectionalSobolevSpace
+    flag_all_any = not ((Dp((2, 0)) < Dp((0, 2))) is True)
+    try:
+        r_unknown = Dp((1, 1)) < vars(ss)["HEin"]
+        flag_raises = not isinstance(r_unknown, Exception)
+    except Exception:  # noqa: BLE001
+        flag_raises = True
+    run.extra["model_variant"] = {"dir_all_any": flag_all_any, "unknown_raises": flag_raises}
     t.append("Definition S : specials := {| id_L2 := %d; id_H1 := %d; id_H2 := %d; id_H3 := %d; id_HInf := %d; "
-             "id_HDiv := %d; id_HCurl := %d; unknown_ids := [%s] |}.\n"
+             "id_HDiv := %d; id_HCurl := %d; unknown_ids := [%s]; dir_all_any := %s; unknown_raises := %s |}.\n"
              % (ids["L2"], ids["H1"], ids["H2"], ids["H3"], ids["HInf"], ids["HDiv"], ids["HCurl"],
-                "; ".join(str(ids[u]) for u in UNKNOWN)))
+                "; ".join(str(ids[u]) for u in UNKNOWN), str(flag_all_any).lower(), str(flag_raises).lower()))
     t.append("Definition grid : list sp := [" + "; ".join(cq(k, o) for k, o in grid) + "].\n")
     t.append("Definition named : list sp := map Named tbl.\n")
     # ---- theorems over the regenerated table / grid
@@ -129,10 +139,17 @@ def main(run):
     # refutations (the faithful model reproduces the defects)
     t.append("Theorem C25_gt_refuted : exists a b, In a named /\\ In b named /\\ py_gt S a b = RB true /\\ py_lt S b a = RB false.\n"
              "Proof. exists (Named n_HDiv), (Named n_HCurl). vm_compute. repeat split; auto 20. Qed.\n")
-    t.append("Theorem C25_unknown_refuted : exists a b, py_lt S (Dir a) (Named b) = RObj.\n"
-             "Proof. exists [Fin 1; Fin 1], n_HEin. vm_compute. reflexivity. Qed.\n")
-    t.append("Theorem C25_dir_named_refuted : exists a b, py_lt S (Dir a) (Named b) = RB true /\\ sub_spec S tbl (Dir a) (Named b) = false.\n"
-             "Proof. exists [Fin 2; Fin 0], n_H1. vm_compute. auto. Qed.\n")
+    if not flag_raises:
+        t.append("Theorem C25_unknown_refuted : exists a b, py_lt S (Dir a) (Named b) = RObj.\n"
+                 "Proof. exists [Fin 1; Fin 1], n_HEin. vm_compute. reflexivity. Qed.\n")
+    if not flag_all_any:
+        t.append("Theorem C25_dir_named_refuted : exists a b, py_lt S (Dir a) (Named b) = RB true /\\ sub_spec S tbl (Dir a) (Named b) = false.\n"
+                 "Proof. exists [Fin 2; Fin 0], n_H1. vm_compute. auto. Qed.\n")
+    else:
+        # repaired variant: < on directional spaces is the specification order on EVERY pair of the grid
+        t.append("Theorem C25_dir_lt_is_spec : forallb (fun x => forallb (fun y => match x, y with\n"
+                 "  | Dir a, Dir b => r_eqb (py_lt S x y) (RB (dir_lt_spec a b)) | _, _ => true end) grid) grid = true.\n"
+                 "Proof. vm_compute. reflexivity. Qed.\n")
     # ---- correspondence: every operator on every pair of the grid
     ops = {"lt": lambda a, b: a < b, "gt": lambda a, b: a > b, "le": lambda a, b: a <= b,
            "ge": lambda a, b: a >= b, "eq": lambda a, b: a == b}
@@ -197,6 +214,12 @@ def main(run):
     D = ss.DirectionalSobolevSpace
 
     def still(kid):
+        try:
+            return still_(kid)
+        except Exception:  # noqa: BLE001   (a repaired comparison may raise instead of returning nonsense)
+            return False
+
+    def still_(kid):
         if kid == "total-ordering-on-partial-order":
             return (H["HDiv"] > H["HCurl"]) is True and (H["HCurl"] < H["HDiv"]) is False
         if kid == "directional-lt-any":
